@@ -118,3 +118,11 @@ package nfpm
 //
 //@ func ParseWithEnvMapping(in io.Reader, mapping func(string) string) (config Config, err error)
 //@   ensures [C16 C17] unknown-keys-are-rejected: implies(err == nil, ghostFlag("yamlDecodedStrictly"))
+//
+//@ trusted func Get(format string) (p Packager, err error)
+//@   ensures [C15] registry-lookup: implies(err == nil, p != nil) && globStr("packagerAsked") == format
+//@   modifies [C11 C12] glob("packagerAsked")
+//
+//@ trusted func ParseFile(path string) (config Config, err error)
+//@   ensures [C15] no-null-content-entries: implies(err == nil, contentsNonNil(config.Info.Contents) && forallStr(func(k string) bool { return !mapHas(config.Overrides, k) || config.Overrides[k] == nil || contentsNonNil(config.Overrides[k].Contents) }))
+//@   modifies [C11 C12]
